@@ -103,7 +103,7 @@ struct Driver
     int tier = 0; // 0 quick, 1 thorough
     uint64_t batch_seed = 1, runs = 0;
     int workers = 16;
-    uint64_t det_runs = 200;
+    uint64_t det_runs = 200; bool det_set = false;
     double max_seconds = 0;
     int item_timeout = 60;
 
@@ -544,6 +544,8 @@ struct Driver
         }
         load_known();
         if (!runs) runs = eng->default_runs(prop, tier);
+        if (!det_set) det_runs = tier ? 2000 : 200;
+        if (max_seconds <= 0) max_seconds = tier ? 1500 : 45; // wall-clock cap: only stops scheduling further runs, reported when hit
         double deadline = max_seconds > 0 ? t0 + max_seconds : 0;
         BatchOut bo;
         uint64_t const D = std::min<uint64_t>(det_runs, runs);
@@ -757,7 +759,7 @@ static inline int driver_main(int argc, char **argv)
         else if (a == "--out") d.out_dir = val();
         else if (a == "--evidence") d.evidence_path = val();
         else if (a == "--known") d.known_path = val();
-        else if (a == "--det") d.det_runs = strtoull(val(), nullptr, 10);
+        else if (a == "--det") { d.det_runs = strtoull(val(), nullptr, 10); d.det_set = true; }
         else if (a == "--max-seconds") d.max_seconds = atof(val());
         else if (a == "--index") gen_index = strtoull(val(), nullptr, 10);
         else if (a == "--quiet") {}
